@@ -159,7 +159,9 @@ def bounded(tier, seed):
     if tier != 'quick':
         lattices += [('Toric2DCode', (3, 3)), ('Planar2DCode', (3, 4)), ('RotatedPlanar2DCode', (4, 4))]
     noises = [((1 / 3, 1 / 3, 1 / 3), None, None), ((0.7, 0.1, 0.2), None, None), ((0.05, 0.05, 0.9), None, None), ((0.2, 0.1, 0.7), 'XZZX', None), ((0.2, 0.1, 0.7), 'XZZX', {'deformation_axis': 'x'}),
-              ((0.20001, 0.1, 0.69999), 'XZZX', {'deformation_axis': 'x'}), ((0.8, 0.1, 0.1), 'XY', None)]
+              ((0.20001, 0.1, 0.69999), 'XZZX', {'deformation_axis': 'x'}), ((0.8, 0.1, 0.1), 'XY', None),
+              # infinite bias: zero flip marginals on some / all qubits of a sector (still below 1/2), with and without a deformation that moves the flips
+              ((0, 0, 1), None, None), ((0, 0, 1), 'XZZX', None), ((1, 0, 0), 'XZZX', {'deformation_axis': 'x'}), ((0, 0, 1), 'XY', None)]
     budget = 150 if tier == 'quick' else 900
     truncated = False
     # small lattices first so that a time cut drops only the largest cosets
@@ -202,5 +204,5 @@ def bounded(tier, seed):
     for v in viol:
         if v['obligation'] not in seen:
             seen.add(v['obligation']); out.append(v)
-    return dict(bound='optimality vs full coset: %d lattices (<= 16 qubits per sector) x 7 noise models (incl. models differing only in deformation axis / 5th decimal, built in sequence) x 2-4 rates; all errors of weight <= floor((d-1)/2) on the listed lattices (matching up to 5x5, union-find toric L>=3); all single-qubit errors for sweep-match on 3x3x3 (thorough: up to %d)' % (len(lattices), 3 if tier == 'quick' else 5),
+    return dict(bound='optimality vs full coset: %d lattices (<= 16 qubits per sector) x 11 noise models (incl. models differing only in deformation axis / 5th decimal, built in sequence, and infinite-bias models with and without deformation) x 2-4 rates; all errors of weight <= floor((d-1)/2) on the listed lattices (matching up to 5x5, union-find toric L>=3); all single-qubit errors for sweep-match on 3x3x3 (thorough: up to %d)' % (len(lattices), 3 if tier == 'quick' else 5),
                 evaluations=ev, distinct_nontrivial=len(nt), truncated_by_time_budget=truncated, rule='real decoders; optimum by exhaustive enumeration of the solution coset; correctable sets exhaustively', samples=samples[:5], violations=out)
